@@ -63,6 +63,7 @@ fn dispatch(l: &str) -> String {
         "reparse" => enc::reparse_op(f[1]),
         "parseall" => enc::parse_all_op(f[1], f[2], f[3]),
         "parsecp" => enc::parse_cp_op(f[1], f[2]),
+        "declines" => enc::declines_op(f[1]),
         "render" => enc::render_op(&f[1..]),
         "big" => numops::big(&f[1..]),
         "bignew" => numops::bignew(f[1]),
